@@ -3,6 +3,8 @@ import Ecal.Model.TokenChannel
 import Ecal.Lemmas.ChanLemmas
 import Ecal.Gen.C07
 import Ecal.Lemmas.LexTerminates
+import Ecal.Props.C18
+import Ecal.Lemmas.PrinterNoNil
 import Ecal.Lemmas.ParserMain
 import Ecal.Lemmas.ParserShape
 import Ecal.Lemmas.ParserShapeS
@@ -84,7 +86,63 @@ theorem error_position_from_input (ts : List Tok) (k : String) (l : Nat) (c : In
     sixKinds k ∧ ((∃ t ∈ ts, t.line = l ∧ t.col = c) ∨ (k = "Unexpected end" ∧ l = 0 ∧ c = 0)) := by
   rcases outcome (fuelFor ts) ts with ⟨t, h', _⟩ | ⟨e, h', _, _, hpos⟩
   · unfold parseToks at h; rw [h'] at h; simp at h
-  · unfold parseToks at h; rw [h'] at h; simp at h; subst h; exact hpos
+  · unfold parseToks at h; rw [h'] at h; simp at h; subst h
+    exact ⟨hpos.1, hpos.2.imp (fun ⟨t, ht, _, _, h1, h2, _⟩ => ⟨t, ht, h1, h2⟩) id⟩
+
+/-- **error_token_per_kind** (sharpening of `error_position_from_input`). The token `t` of the input at whose
+    line/column a positioned error stands is never a comment token, and per error kind (`kindTok`):
+    `Lexical error` ⇒ `t` is the lexer's error token (id 0); `Unknown term` ⇒ `t`'s id has no grammar entry;
+    `Term cannot start an expression` ⇒ `t`'s grammar entry has no null denotation (or `t` is `{` read as a block
+    start); `Term can only start an expression` ⇒ `t`'s grammar entry has a positive binding and no left
+    denotation. (`Unexpected term` / positioned `Unexpected end`: the token the parser stood on or had just left;
+    WHICH index of the list it is — "the first unconsumed token" — is not stated: the error predicate of the
+    Hoare logic does not see the state; open.) -/
+theorem error_token_per_kind (ts : List Tok) (k : String) (l : Nat) (c : Int)
+    (h : parseToks ts = (none, some (.perr k l c))) :
+    (∃ t ∈ ts, t.id ≠ 3 ∧ t.id ≠ 4 ∧ t.line = l ∧ t.col = c ∧ kindTok k t) ∨ (k = "Unexpected end" ∧ l = 0 ∧ c = 0) := by
+  rcases outcome (fuelFor ts) ts with ⟨t, h', _⟩ | ⟨e, h', _, _, hpos⟩
+  · unfold parseToks at h; rw [h'] at h; simp at h
+  · unfold parseToks at h; rw [h'] at h; simp at h; subst h; exact hpos.2
+
+/-- non-vacuity of the per-kind clauses: `"` (lexer error token, id 0) and `)` (no null denotation) -/
+example : (parseToks [⟨0, 0, [], false, false, 0, 1, 1⟩]).2 = some (.perr "Lexical error" 1 1) ∧
+    (parseToks [⟨23, 0, [41], false, false, 0, 1, 1⟩, ⟨1, 1, [], false, false, 0, 1, 2⟩]).2
+      = some (.perr "Term cannot start an expression" 1 1) := by decide
+
+/-- **error_position_in_source** (composition with C18's lexer theorems; the statement in SOURCE positions).
+    For every input TEXT: if parsing fails with `perr k l c`, then `k` is one of the six kinds and either the error is
+    the unpositioned `Unexpected end` (0, 0) — or there is a token `t` of the lexer's token list, not a comment,
+    fitting the kind (`kindTok`), with `l = t.line`, `c = t.col`, and `t` is the EOF token or
+    * `l` is the TRUE line of the byte offset `t.pos` in the source (`lineOf`),
+    * `c` is the true column of `t.pos` (`colOf`) unless the known finding `hash-comment-column` applies there
+      (`afterHashComment`, C18's classifier), and
+    * at `t.pos` stands the FIRST CHARACTER of the token: a rune inside the input that is not blank (or, for the
+      error token of an unterminated block comment, the byte after its `/*`).
+    So "the error's line/column is that of the first character of a token of the source text" — up to C18's two
+    known column findings (`hash-comment-column`, and the EOF token's stale position, which is why EOF is excepted).
+    Uses `token_positions_true_partial` and `token_starts_at_first_character` of Props/C18.lean. -/
+theorem error_position_in_source (input : List Nat) (k : String) (l : Nat) (c : Int)
+    (h : parse input = (none, some (.perr k l c))) :
+    sixKinds k ∧ ((k = "Unexpected end" ∧ l = 0 ∧ c = 0) ∨
+      ∃ t ∈ (lex input).toList, t.id ≠ 3 ∧ t.id ≠ 4 ∧ t.line = l ∧ t.col = c ∧ kindTok k t ∧
+        (t.id = tEOF ∨
+          ((l = Ecal.Lex.Spec.lineOf input.toArray t.pos ∧
+            (c = Ecal.Lex.Spec.colOf input.toArray t.pos ∨
+              Ecal.Lex.Spec.afterHashComment input.toArray (lex input).toList t.pos = true)) ∧
+           ((t.pos < input.toArray.size ∧ Ecal.Lex.blank (some (Ecal.Lex.decodeRune input.toArray t.pos).1) = false) ∨
+            (t.id = tERROR ∧ 2 ≤ t.pos ∧ input.toArray.getD (t.pos - 2) 0 = 47 ∧
+              input.toArray.getD (t.pos - 1) 0 = 42))))) := by
+  refine ⟨(error_position_from_input _ k l c h).1, ?_⟩
+  rcases error_token_per_kind _ k l c h with ⟨t, ht, h3, h4, hl, hc, hk⟩ | hu
+  · refine Or.inr ⟨t, ht, h3, h4, hl, hc, hk, ?_⟩
+    by_cases he : t.id = tEOF
+    · exact Or.inl he
+    · right
+      have hp := Ecal.Props.C18.token_positions_true_partial input t ht he
+      have hs := (Ecal.Props.C18.token_starts_at_first_character input t ht he).2.2
+        (by simpa [tPOSTCOMMENT] using h4) (by simpa [tPRECOMMENT] using h3)
+      exact ⟨⟨by rw [← hl]; exact hp.1, by rw [← hc]; exact hp.2⟩, hs⟩
+  · exact Or.inl hu
 
 /-- non-vacuity: `a +` + EOF gives the unpositioned end, `)` + EOF an error at the token `)` -/
 example : (parseToks [⟨7, 0, [97], true, false, 0, 1, 1⟩, ⟨33, 2, [43], false, false, 0, 1, 3⟩,
@@ -208,6 +266,29 @@ example : WellFormed (.mk "" (some ⟨26, 4, [123], false, false, 0, 1, 5⟩) 0 
       [some (.mk "statements" none 0 .none .none [] [])] []) = false ∧
     okTree (.mk "" (some ⟨26, 4, [123], false, false, 0, 1, 5⟩) 0 .none .none
       [some (.mk "statements" none 0 .none .none [] [])] []) = false := by decide
+
+/-- **printer_never_hits_nil_child.** On every tree the parser returns, the printer model's `visit`
+    (`Ecal.Print.visit` = `visitFQ quote 100000`, C08's fuel-structural port of prettyprinter.go's visit) never takes
+    its nil-child branch: the result is never `.error .nilNode`, whatever the parent argument. More generally
+    (`Ecal.Print.visit_only_panic`): for every quoting function, every fuel and every strictly well-formed tree,
+    the only error `visitFQ` can return is `PErr.panic`. This does NOT say that printing succeeds: the `panic`
+    outcome (missing template for a name/arity, a node without token where the printer reads one, the slice in
+    post-processing, fuel below the depth of the tree) is not excluded here (C08's domain). -/
+theorem printer_never_hits_nil_child (ts : List Tok) (t : Node) (h : parseToks ts = (some t, none))
+    (parent : Option Node) : Ecal.Print.visit (some t) parent ≠ .error .nilNode := by
+  have hw := parse_wellformed_strict ts t h
+  simp only [WellFormedRoot, Bool.and_eq_true] at hw
+  intro he
+  have := (Ecal.Print.visit_only_panic Ecal.Print.quote 100000 t parent hw.1).h _ he
+  cases this
+
+/-- non-vacuity (the hypothesis is satisfiable and the printer then indeed prints): `a` + EOF -/
+example : (parseToks [⟨7, 0, [97], true, false, 0, 1, 1⟩, ⟨1, 1, [], false, false, 0, 1, 2⟩]).1.isSome = true := by decide
+
+/-- negative witness: on a tree WITH a nil child the printer model does take that branch -/
+example : (match Ecal.Print.visit (some (.mk "statements" none 0 .none .none [none] [])) none with
+    | .error .nilNode => true | _ => false) = true := by
+  decide +kernel
 
 /-! ## The token channel: nothing of the parser is left at the return
 
